@@ -362,3 +362,26 @@ func verifC09Rank(rx, ry, rz int) {}
 //@   requires f != nil && res != nil
 //@   ensures err == nil && mm.n == len(res.Values) && matchOK(mm)
 //@   ensures forall i int :: 0 <= i < len(res.Values) ==> (testOf(mm, i) <==> den(f.match, res, i))
+
+// keepCount(mm, k): how many of the first k measurements the match keeps.
+//@ rec func keepCount(mm Match, k int) int = k <= 0 ? 0 : keepCount(mm, k-1) + (testOf(mm, k-1) ? 1 : 0)
+
+// Apply keeps precisely the matching measurements, in their original order.
+//@ func (m *Match) Apply(res *benchfmt.Result) (any bool)
+//@   props C06
+//@   requires m != nil && matchOK(deref(m)) && res != nil && m.n == len(res.Values)
+//@   modifies res, res.Values
+//@   ensures ref(res.Values) == old(ref(res.Values)) && off(res.Values) == old(off(res.Values))
+//@   ensures (len(res.Values) == old(len(res.Values)) && any && (forall i int :: 0 <= i < m.n ==> testOf(deref(m), i)) &&
+//@              (forall i int :: 0 <= i < m.n ==> res.Values[i] == old(res.Values[i]))) ||
+//@           (len(res.Values) == 0 && !any && (forall i int :: 0 <= i < m.n ==> !testOf(deref(m), i))) ||
+//@           (len(res.Values) == keepCount(deref(m), m.n) && any == (len(res.Values) > 0) &&
+//@              (forall i int :: 0 <= i < m.n && testOf(deref(m), i) ==> res.Values[keepCount(deref(m), i)] == old(res.Values[i])))
+//@   loop 1:
+//@     invariant 0 <= idx() <= len(res.Values) && len(res.Values) == m.n && unchanged(res, res.Values) && deref(m) == old(deref(m))
+//@     invariant ref(res.Values) == old(ref(res.Values)) && off(res.Values) == old(off(res.Values)) && len(res.Values) == old(len(res.Values))
+//@     invariant j == keepCount(deref(m), idx()) && 0 <= j <= idx()
+//@     invariant forall i int :: 0 <= i < idx() && testOf(deref(m), i) ==> res.Values[keepCount(deref(m), i)] == old(res.Values[i])
+//@     invariant forall i int :: idx() <= i < m.n ==> res.Values[i] == old(res.Values[i])
+//@     invariant forall i int :: 0 <= i <= idx() ==> 0 <= keepCount(deref(m), i) <= i
+//@     decreases len(res.Values) - idx()
